@@ -108,13 +108,14 @@ func LookupWellKnown(ctx context.Context, serverNameType spec.ServerName) (*Well
 	}
 
 	// Convert result to JSON
-	wellKnownResponse := &WellKnownResult{
-		CacheExpiresAt: expiryTimestamp,
-	}
+	wellKnownResponse := &WellKnownResult{}
 	err = json.Unmarshal(body, wellKnownResponse)
 	if err != nil {
 		return nil, err
 	}
+	// Set the lifetime after decoding: the body is under the remote server's control and
+	// must not be able to name a CacheExpiresAt of its own.
+	wellKnownResponse.CacheExpiresAt = expiryTimestamp
 
 	if wellKnownResponse.NewAddress == "" {
 		return nil, errors.New("No m.server key found in well-known response")
